@@ -128,6 +128,12 @@ fn main() {
                 Cfg { ents: three(), clients: clients(2), max_size: vec![1200; 2], rel: true, policy: "black".into(), ..Default::default() },
                 Profile { steps: 60, comps: vec!["A"], rel: true, vis: true, marks: true, ..Default::default() },
             ),
+            // pre-spawned entities together with relations and visibility: a mapping may arrive for a server entity
+            // the client only knows as a reference (placeholder)
+            "pre_rel" => (
+                Cfg { ents: three(), clients: clients(2), max_size: vec![1200; 2], rel: true, policy: "black".into(), ..Default::default() },
+                Profile { steps: 70, comps: vec!["A"], pre: true, rel: true, vis: true, marks: false, clean: true, ..Default::default() },
+            ),
             "prespawn" => (
                 Cfg { ents: three(), clients: clients(2), max_size: vec![1200; 2], ..Default::default() },
                 Profile { steps: 70, comps: vec!["A", "B"], pre: true, ..Default::default() },
